@@ -652,7 +652,7 @@ func rowsText(rows []row) string {
 }
 
 func spawn(scn, dir string, at int, extra ...string) (killed bool, out string, err error) {
-	return spawnT(scn, dir, at, 60*time.Second, extra...)
+	return spawnT(scn, dir, at, 4*time.Minute, extra...)
 }
 
 func spawnT(scn, dir string, at int, limit time.Duration, extra ...string) (killed bool, out string, err error) {
